@@ -203,9 +203,9 @@ func (goh *GoatOverHttp) retrieve(id string) (*httpReadWriter, bool) {
 			writeAddr: id,
 			readCh:    make(chan *Rpc),
 			done:      make(chan struct{}),
-			cancel:    func() { goh.unregister(id) },
 			clock:     goh.clock,
 		}
+		conn.cancel = func() { goh.unregister(conn) }
 
 		goh.conns.value[id] = conn
 	}
@@ -213,11 +213,15 @@ func (goh *GoatOverHttp) retrieve(id string) (*httpReadWriter, bool) {
 	return conn, !ok
 }
 
-func (goh *GoatOverHttp) unregister(id string) {
+// unregister removes conn unless its address has been taken over by a newer
+// connection in the meantime.
+func (goh *GoatOverHttp) unregister(conn *httpReadWriter) {
 	goh.conns.Lock()
 	defer goh.conns.Unlock()
 
-	goh.unregisterLocked(id)
+	if goh.conns.value[conn.writeAddr] == conn {
+		goh.unregisterLocked(conn.writeAddr)
+	}
 }
 
 func (goh *GoatOverHttp) unregisterLocked(id string) {
